@@ -10,6 +10,7 @@ import (
 	"fmt"
 	"strings"
 
+	"github.com/hedzr/is"
 	"github.com/hedzr/is/term/color"
 	"github.com/hedzr/logg/slog"
 
@@ -149,8 +150,16 @@ func modeAlphabet(full bool) []modeCall {
 				}
 				return t
 			}, func(s Format) Format { return s }),
+			// (... nor is fetching an existing child by its name, whatever options that call carries: the child is handed
+			// out as it is and the receiver is left alone)
 			set("SetLevel SetAttrs SetTimeFormat", func(t *slog.Entry) *slog.Entry {
-				return t.SetLevel(slog.AlwaysLevel).SetAttrs(slog.Int("x", 1)).SetTimeFormat("15:04:05")
+				t.SetLevel(slog.AlwaysLevel).SetAttrs(slog.Int("x", 1)).SetTimeFormat("15:04:05")
+				name := fmt.Sprintf("fetched-twice-%d", len(t.Name()))
+				first := t.New(name)
+				if again := t.New(name, slog.WithJSONMode(!t.JSONMode()), slog.WithColorMode(!t.ColorMode())); again != first {
+					panic("harness: New(name) of an existing child created another logger (C10's subject)")
+				}
+				return t
 			}, func(s Format) Format { return s }),
 			// WithSkip(n) keeps one child per n: the second call returns the child made by the first, whose format is its
 			// own by then (handing it out again is not a mode call)
@@ -279,7 +288,7 @@ func c11run(c *Ctx, idx int, log *mon.Log, w mon.W, alpha []modeCall, steps []c1
 				if i != st.target && !(created && i == len(loggers)-1) {
 					who = "another-logger"
 				}
-				c.R.Violation(idx, "record-shape", "C11/record-shape/"+strings.ReplaceAll(mc.name, " ", "_")+"/"+who, fmt.Sprintf("after %v logger #%d emits %s (classified %v), the state machine says %v", hist, i, q(clip(string(evs[0].Data), 120)), got, want), map[string]any{"sequence": hist})
+				c.R.Violation(idx, "record-shape", "C11/record-shape/"+strings.ReplaceAll(mc.name, " ", "_")+"/"+who, fmt.Sprintf("after %v logger #%d emits %s (%s), the state machine says %v", hist, i, q(clip(string(evs[0].Data), 120)), map[bool]string{true: "a whole " + got.String() + " record", false: "not a whole record of any of the three formats; nearest: " + got.String()}[ok], want), map[string]any{"sequence": hist})
 				return false
 			}
 		}
@@ -325,6 +334,11 @@ func c11random(c *Ctx) {
 	w := mon.New(log, "W", mon.ShapePlain)
 	slog.RemoveFlags(slog.Lcaller)
 	alpha := modeAlphabet(true)
+	if c.X("nocolormode", "") == "1" {
+		// the application's process-wide "--no-color" switch (hedzr/is) is on: the format is decided by mode calls
+		is.SetNoColorMode(true)
+		c.R.Add("processes_with_the_no_color_switch_on", 1)
+	}
 	c.Each(func(idx int, r *gen.R) {
 		n := r.Range(4, 15)
 		var steps []c11step
